@@ -23,15 +23,17 @@ def build(ctx):
     exes = ctx.build_many([
         dict(name="h12", sources=["h12.cpp"], flags=FLAGS, opt="-O2"),
         dict(name="h12f", sources=["h12.cpp"], flags=FLAGS + H7, opt="-O2"),
+        dict(name="h12a", sources=["h12.cpp"], flags=FLAGS + H7, opt="-O1", asan=True),
     ])
-    return {"h12": exes[0], "h12f": exes[1]}
+    return {"h12": exes[0], "h12f": exes[1], "h12a": exes[2]}
 
 
 def run(ctx):
     exes = build(ctx)
     if getattr(ctx, "build_only", False):
         return
-    h, hf = exes["h12"], exes["h12f"]
+    h, hf, ha = exes["h12"], exes["h12f"], exes["h12a"]
+    ctx.run_harness(ha, ["--part", "asan"], shards=16)
     ctx.run_harness(hf, ["--part", "flexperm"], shards=16)
     ctx.run_harness(h, ["--part", "hist"], shards=16)
     ctx.run_harness(h, ["--part", "dump"], shards=16)
